@@ -25,7 +25,7 @@ CONSTANTS
   MaxObj = %d
   Caps = %s
 INVARIANTS FifoExactlyOnce Counters CapacityRespected EofFlag
-PROPERTIES EofExact NeverNullWhileQueued
+PROPERTIES EofExact NeverNullWhileQueued RefinesAbs
 VIEW View
 ACTION_CONSTRAINT EdgeLog
 CONSTRAINT InitLog
@@ -51,6 +51,39 @@ CHECK_DEADLOCK FALSE
         rep.violation("seq:mismatch", "real ObjectQueue leaves the spec graph: %s" % agg["first"], agg["first"])
     if agg["paths"] != stats["paths"] and not agg["crashed"] and not agg["mismatches"]:
         raise vlib.ToolError("replayed %d of %d paths" % (agg["paths"], stats["paths"]))
+
+
+def unbounded_part(rep):
+    """OQAbs.tla (the queue abstracted to its length; ObjectQueueSeq refines it, checked by TLC above): Apalache proves
+    Counters and CapacityRespected for all capacities and counter values from an inductive invariant."""
+    import shutil
+    import subprocess
+    exe = shutil.which("apalache-mc")
+    out = dict(tool="apalache-mc", init_implies_inv=None, inv_inductive=None)
+    rep.cov["unbounded"] = out
+    if not exe:
+        out["note"] = "apalache-mc not found: unbounded step skipped (bounded TLC results stand)"
+        return
+    wd = os.path.join(vlib.WORK, "apalache")
+    os.makedirs(wd, exist_ok=True)
+    for key, args in (("init_implies_inv", ["--init=Init", "--length=0"]), ("inv_inductive", ["--init=IndInit", "--length=1"])):
+        try:
+            r = subprocess.run([exe, "check", "--cinit=CInit", "--inv=IndInv", "--out-dir=" + os.path.join(wd, "out"),
+                                "--run-dir=" + os.path.join(wd, "run_" + key)] + args + [os.path.join(vlib.SPEC, "OQAbs.tla")],
+                               stdout=subprocess.PIPE, stderr=subprocess.STDOUT, timeout=600, cwd=wd, text=True)
+            txt = r.stdout
+        except subprocess.TimeoutExpired:
+            out[key] = "timeout"
+            continue
+        if "The outcome is: NoError" in txt:
+            out[key] = True
+        elif "The outcome is: Error" in txt and "invariant" in txt.lower():
+            out[key] = False
+            rep.violation("unbounded:%s" % key, "Apalache: IndInv of OQAbs.tla is not %s"
+                          % ("implied by Init" if key == "init_implies_inv" else "inductive"), dict(output=txt[-3000:]))
+        else:
+            out[key] = "tool failure (rc %s)" % r.returncode      # not a verdict: the bounded results stand
+    shutil.rmtree(wd, ignore_errors=True)
 
 
 def scale_part(rep, tier):
@@ -105,6 +138,7 @@ def run(rep, tier, seed):
     seq_part(rep, tier)
     conc_part(rep, tier)
     scale_part(rep, tier)
+    unbounded_part(rep)
     rep.cov["distinct_nontrivial"] = sum(m["edges"] for m in rep.cov.get("m1", []))
     rep.assumptions += ["projection reads private members (-fno-access-control)",
                         "Inf models numeric_limits<uint32_t>::max()"]
